@@ -6,6 +6,24 @@ VERIF = os.path.dirname(os.path.dirname(os.path.abspath(__file__)))
 
 # id -> (category, technique, text, note)
 CLAIMS = {
+    'C13': ('other',
+            'static analysis: field-coverage of the ordering key vs __eq__, statement-order rule in the simplifier, lint for set iteration / id() / hash() ordering',
+            'Decides the structural preconditions of canonicity: key_expr has a distinctly tagged branch for every IR node class and reads every '
+            'field __eq__ compares (so unequal operands never tie in the commutative sort), sorting precedes constant folding, and no function of the '
+            'expression/simplifier/evaluator/emulation/lifter modules iterates a set-typed value, sorts by hash()/id() or defines an ordering method on id().',
+            'Not decided: idempotence and confluence of the rewrite system (fixpoint behaviour on concrete trees). Trusted: the set-typing heuristic '
+            '(values produced by get_r/get_w/get_expr_ids/set()/set operations).'),
+    'C15': ('other',
+            'static analysis: field/method matrix over the 8 IR node classes (sibling-interface agreement), control-dependence of sort sites on a commutative-operator guard',
+            'For every IR node class: __hash__ fields are a subset of __eq__ fields, __eq__ compares every constructor field pairwise and tests the class, '
+            'copy()/visit() rebuild from all fields, recurse into every sub-expression field, copy never returns self, every visit is wrapped by visit_chk, '
+            'replace_expr/canonize go through visit, and every operand sort is guarded by membership in a commutative-operator list.',
+            'Not decided: value preservation for concrete valuations. ExprId.is_term is declared metadata (not identity).'),
+    'C16': ('other',
+            'static analysis: field/method matrix (get_r/get_w recursion coverage and mem_read forwarding), per-class branch audit of MatchExpr against __eq__ fields',
+            'get_r of every node class reaches every sub-expression field and forwards mem_read; memory/identifier leaves report themselves; ExprAff.get_w names dst; '
+            'MatchExpr tests the pattern class and compares every scalar field, operand count and slot bound that __eq__ compares before recursing; test_set guards rebinding.',
+            'Not decided: behaviour of bindings on concrete trees, completeness of matching. ExprAff.dst and ExprMem.segm are exempt from get_r (reasons printed as notes).'),
     'C14': ('proof',
             'static analysis: template-conformance proof over the AST of every modint operator method (path-shape extraction, no execution)',
             'Every constructor path, width class, maxcast and operator/comparison method of miasmx/tools/modint.py is matched '
